@@ -133,6 +133,9 @@ pub fn apply(op: &Op, sc: &Scenario, req: &[u8], prev_honest: &[u8]) -> Vec<u8> 
                     q.sign_srep(v, &s2().online_seed);
                     p.sig = q.sig;
                 }
+                // a genuine signature value reused in the other role
+                ("SIG", "copy-of-certsig") => p.sig = p.cert_sig.clone(),
+                ("CERTSIG", "copy-of-sig") => p.cert_sig = p.sig.clone(),
                 ("CERTSIG", "zero") => p.cert_sig = vec![0; 64],
                 ("CERTSIG", "random") => p.cert_sig = Rng(78).bytes(64),
                 ("CERTSIG", "over-other-dele") => {
@@ -229,6 +232,18 @@ pub fn apply(op: &Op, sc: &Scenario, req: &[u8], prev_honest: &[u8]) -> Vec<u8> 
                     p.dele.set("MINT", le64(sc.stamp.midp + 10));
                     p.dele.set("MAXT", le64(sc.stamp.midp.saturating_sub(10)));
                     p.sign_dele(v, &id.lt_seed);
+                }
+                // invented SREP (other midpoint, correct root) carrying the genuine CERT.SIG as its SIG
+                "forged-srep-with-certsig" => {
+                    p.srep.set("MIDP", le64(1_000_000_000));
+                    p.sig = p.cert_sig.clone();
+                }
+                // genuine CERT.SIG kept over a forged DELE naming the attacker's online key, SREP signed by it
+                "forged-dele-keeping-certsig" => {
+                    let o = s2();
+                    p.dele.set("PUBK", o.online_pk().to_vec());
+                    p.srep.set("MIDP", le64(1_000_000_000));
+                    p.sign_srep(v, &o.online_seed);
                 }
                 // properly signed SREP whose ROOT is not a full Merkle node: nothing can bind to it
                 "root-empty" | "root-prefix-4" | "root-half" | "root-extended" => {
@@ -335,8 +350,8 @@ pub fn alphabet(v: Version, honest_len: usize, tier: Tier) -> Vec<Op> {
         ops.push(Op::FlipBit(b));
     }
     for (f, vars) in [
-        ("SIG", vec!["zero", "random", "over-other-srep", "by-s2"]),
-        ("CERTSIG", vec!["zero", "random", "over-other-dele", "by-s2"]),
+        ("SIG", vec!["zero", "random", "over-other-srep", "by-s2", "copy-of-certsig"]),
+        ("CERTSIG", vec!["zero", "random", "over-other-dele", "by-s2", "copy-of-sig"]),
         ("PATH", vec!["drop-last", "drop-first", "append", "swap", "zero-element", "half-element"]),
         ("INDX", vec!["other", "sibling", "out-of-range", "max"]),
         ("MIDP", vec!["plus1", "zero", "max"]),
@@ -354,7 +369,7 @@ pub fn alphabet(v: Version, honest_len: usize, tier: Tier) -> Vec<Op> {
         ops.push(Op::SetField("VER", "classic"));
         ops.push(Op::SetField("VER", "remove"));
     }
-    for r in ["all-by-s2", "srep-by-s2-online", "dele-by-s2", "window-before", "window-after", "window-empty", "root-of-other-batch", "root-empty", "root-prefix-4", "root-half", "root-extended"] {
+    for r in ["all-by-s2", "srep-by-s2-online", "dele-by-s2", "window-before", "window-after", "window-empty", "root-of-other-batch", "root-empty", "root-prefix-4", "root-half", "root-extended", "forged-srep-with-certsig", "forged-dele-keeping-certsig"] {
         ops.push(Op::Resign(r));
     }
     for c in ["dele-ctx", "tree-profile", "whole-reply", "framing"] {
@@ -538,6 +553,48 @@ pub fn run_c01(ctx: &Ctx) -> Result<(), String> {
             }
         }
     }
+    // history dependence inside one client process: -n 2, the first reply is honest (so whatever the
+    // client remembers from a successful verification is in place), the second carries one tamper
+    // operator from the structured alphabet (no bit flips / truncations)
+    for v in [Version::Classic, Version::Ietf13] {
+        let prev_req = std_request(v, &nonce(0x5500, v.nonce_len()));
+        let prev_honest = honest_parts(v, &s1(), &[prev_req], 0, Stamp::at(v, 1_700_000_000, 0)).datagram();
+        let ops: Vec<Op> = alphabet(v, 8, ctx.tier).into_iter().filter(|o| !matches!(o, Op::FlipBit(_) | Op::Truncate(_) | Op::Extend(_) | Op::Honest)).collect();
+        let key = key_arg(false);
+        let proto = if v == Version::Classic { "0" } else { "13" };
+        par_for(ops.len(), 2, |k, _| {
+            let op = &ops[k];
+            let args = ["-z", "-v", "-f", "%s %f", "-p", proto, "-t", "5", "-k", key.as_str(), "-n", "2"];
+            let sc = Scenario { v, n: 1, i: 0, stamp: Stamp::at(v, 1_790_000_000, 123_456) };
+            let mut second = vec![];
+            let r = run_client(&args, 2, |reqs| {
+                let first = honest_parts(v, &s1(), &[reqs[0].0.clone()], 0, Stamp::at(v, 1_790_000_000, 77)).datagram();
+                second = apply(op, &sc, &reqs[1].0, &prev_honest);
+                vec![vec![first], vec![second.clone()]]
+            });
+            let run = match r {
+                Ok(r) => r,
+                Err(e) => {
+                    *failed.lock().unwrap() = Some(e);
+                    return;
+                }
+            };
+            evals.fetch_add(1, Relaxed);
+            nontrivial.fetch_add(1, Relaxed);
+            let truth = authentic(&second, &run.requests[1].0, v, Some(&pk), CLIENT_VIEW);
+            let times = printed_times(&run.exit.stdout);
+            let cls = format!("after-honest:{}:{}:{}", op.family(), if run.exit.code == Some(0) { "exit0" } else { "fail" }, match &truth { Ok(_) => "authentic", Err(c) => c });
+            *classes.lock().unwrap().entry(cls).or_insert(0) += 1;
+            if let Err(clause) = truth {
+                if times.len() > 1 || run.exit.code == Some(0) {
+                    ctx.violation("accepted-unauthentic", clause, &format!("after-honest/{}", op.family()), json!({"kind":"client-multi","version":v.name(),"nreq":2,"op":op.name(),"first_reply":"honest","printed_times":times.len(),"exit":run.exit.code,"stdout":run.exit.stdout,"reply":hex_trunc(&second, 4096),"failed_clause":clause}));
+                }
+            }
+        });
+        if let Some(e) = failed.lock().unwrap().take() {
+            return Err(e);
+        }
+    }
     // T8 sampled random multi-byte mutations
     let mut sampled = 0u64;
     {
@@ -578,7 +635,7 @@ pub fn run_c01(ctx: &Ctx) -> Result<(), String> {
     ctx.cov("outcome_classes", json!(*classes.lock().unwrap()));
     ctx.cov("exhaustive", json!(true));
     ctx.cov("bound", json!({"deviations": 1, "batch_shapes": shapes(ctx.tier), "multi_request": [2, 3]}));
-    ctx.cov("rule", json!("each case = one execution of the real roughenough-client process (-z -v -f '%s %f' -k <S1 key, hex or base64> -p 0|13 [-j]) against a harness UDP responder that builds the honest reply for the request actually received (reference responder, keys S1) and applies ONE tamper operator: T1 every single bit of the whole datagram; T2 field substitutions on SIG, CERT.SIG, PATH, INDX, SREP.{MIDP,RADI,ROOT,VER}, DELE.{PUBK,MINT,MAXT} without re-signing; T3 chain re-signed by another long-term key; T4 properly signed (by S1) delegation window excluding MIDP, root of another batch, ROOT that is not a full node (empty, 4-byte prefix, half, extended); T5 cross-protocol context/tree/framing; T6 replies for other requests (same batch, other batch, previous run; for -n 2/3 all assignment functions); T7 truncations (quick: every 4 bytes, thorough: every byte) and extensions; raw junk. 0 deviations = honest baseline. Oracle: violation iff the client exits 0 and prints a time while rtref::authentic (client view, pinned key) rejects. Non-trivial = any case with a tamper operator."));
+    ctx.cov("rule", json!("each case = one execution of the real roughenough-client process (-z -v -f '%s %f' -k <S1 key, hex or base64> -p 0|13 [-j]) against a harness UDP responder that builds the honest reply for the request actually received (reference responder, keys S1) and applies ONE tamper operator: T1 every single bit of the whole datagram; T2 field substitutions on SIG, CERT.SIG, PATH, INDX, SREP.{MIDP,RADI,ROOT,VER}, DELE.{PUBK,MINT,MAXT} without re-signing; T3 chain re-signed by another long-term key; T4 properly signed (by S1) delegation window excluding MIDP, root of another batch, ROOT that is not a full node (empty, 4-byte prefix, half, extended); T5 cross-protocol context/tree/framing; T6 replies for other requests (same batch, other batch, previous run; for -n 2/3 all assignment functions); T7 truncations (quick: every 4 bytes, thorough: every byte) and extensions; raw junk; genuine signature values reused in the other role; and, with -n 2, every structured operator on the SECOND reply after an honest first one (state remembered by the client process). 0 deviations = honest baseline. Oracle: violation iff the client exits 0 and prints a time while rtref::authentic (client view, pinned key) rejects. Non-trivial = any case with a tamper operator."));
     ctx.sample(json!({"version":"classic","n":3,"i":2,"op":"set:CERTSIG:by-s2","key":"hex"}));
     ctx.sample(json!({"version":"ietf13","n":1,"i":0,"op":"flipbit:1007","key":"base64"}));
     ctx.sample(json!({"version":"classic","nreq":3,"assignment":[1,0,2]}));
